@@ -2288,6 +2288,8 @@ class Engine(object):
         raise Unsupported('slice of %r' % (obj,))
 
     def getattr(self, obj, name):
+        if not isinstance(name, str):
+            raise PyRaise(PExc(TypeError, tag='attribute name must be string'))
         if isinstance(obj, PObj):
             if name in obj.fields:
                 v = obj.fields[name]
